@@ -12,6 +12,7 @@ import PyGqlModel.Lemmas.PrintLexFloat
 import PyGqlModel.Lemmas.PrintTokensDir
 import PyGqlModel.Lemmas.PrintLayExec
 import PyGqlModel.Lemmas.PrintMatchExec
+import PyGqlModel.Lemmas.PrintBlockLay
 import PyGqlModel.Props.C01_parse
 namespace PyGql.Props.C03
 open PyGql PyGql.Ast PyGql.Parse PyGql.Spec PyGql.Print PyGql.PrintLex PyGql.PrintMatch PyGql.PrintTokens PyGql.Lex
@@ -184,6 +185,41 @@ def PrintStableStatement : Prop :=
     ∃ toks' d', lexAll (printDocument c d) = .ok toks' ∧ parseDocument fl toks' = .ok d' ∧
       printDocument c d' = printDocument c d
 
+/-! ### block strings under every enclosing indentation -/
+
+/-- `block_lay_multiline` — the hypothesis `BlockLay` (the printed block string is ONE BlockString token with the same
+    value under EVERY enclosing `_indent`, i.e. at every nesting depth) is DISCHARGED for every value that the printer
+    lays out in the multi-line form `"""⏎ … ⏎"""` (every value that does not start with a blank, and every value with
+    a line break) and that has the shape `BlockStringValue` produces: lines without CR/LF made of block-string
+    characters, first and last line not blank, smallest indentation of the non-blank lines 0.
+    Ingredients: the lexer's scan inverts the escaping (`block_roundtrip_partial` of the string part), the escaping
+    commutes with `_indent` (`escape_replaceLF`), and the three layout lemmas of the string part compose
+    (`parseBlockString_layout`).  NOT covered: the one-line form (`"""  x"""`, values starting with a blank and without a
+    line break) and the empty value — both stay with the correspondence / direct oracle. -/
+theorem block_lay_multiline (ind l : Text) (ls : List Text) (hind : ∀ ch ∈ ind, ch = 32 ∨ ch = 9)
+    (hlines : ∀ x ∈ l :: ls, BlockString.IsLine x) (hchars : ∀ ch ∈ BlockString.joinLF (l :: ls), blockChar ch = true)
+    (hfirst : Spec.onlyWhiteSpace l = false) (hlast : Spec.onlyWhiteSpace ((l :: ls).getLast (by simp)) = false)
+    (hmin : (l :: ls).foldl BlockString.indentStep none = some 0)
+    (hml : multiLineForm (BlockString.joinLF (l :: ls)) = true) :
+    BlockLay ind (BlockString.joinLF (l :: ls)) :=
+  blockLay_multiline ind l ls hind hlines hchars hfirst hlast hmin hml
+
+/-- `print_parse_value_spec`: `print_parse_value` with every leaf condition given by the SPECIFICATION recognisers
+    (names, integers, floats) and block strings by `BlockLay` (discharged above for the multi-line form). -/
+theorem print_parse_value_spec (fl : Flags) (hnl : fl.noLocation = true) (c : Cfg) (v : Value)
+    (hl : okValue c.indent v) (hn : noLocValue v = true) (hw : wfValue false v = true) :
+    ∃ toks, lexAll (printValue c v) = .ok toks ∧ parseValue fl toks = .ok v := by
+  have hlx := lexesTo_of_lay (lay_value c v hl) [] [] safe_nil lexesTo_nil
+  simp only [List.append_nil] at hlx
+  obtain ⟨toks, h1, h2⟩ := lexAll_of_lexesTo hlx
+  refine ⟨_, h1, ?_⟩
+  apply C01.parseValue_complete fl _ v hw
+  show matchesAll fl _ _ = true
+  apply matchesAll_of_yield fl hnl
+  · simp [plainAll, plain, plain_valueV v hn]
+  · simp [classes, Item.yieldAll, Item.yield, cls_sof, cls_eof, yieldValue] at h2 ⊢
+    exact h2
+
 /-! ### executable documents IN FULL -/
 
 /-- `print_tokens_executable`: for every executable document (operations in long and short form, variable definitions
@@ -240,6 +276,27 @@ example : ∃ toks, lexAll (printDocument (mkCfg (.str [32, 9])) exDoc) = .ok to
       repeat' apply And.intro
       all_goals first | decide | simp)
     (by decide) (by decide)
+
+/-- non-vacuity: the block string `a"""⏎  b\` (embedded triple quote, an indented second line, trailing backslash)
+    as an argument two selection sets deep, TAB indentation: `{ f { g(x: """…""") } }` -/
+private def exBlockLines : List Text := [[97, 34, 34, 34], [32, 32, 98, 92]]
+private def exBlockDoc : Document :=
+  ⟨[.operation ⟨K.query, none, [], [],
+      .mk [.field none ⟨[102], none⟩ [] [] (some (.mk [.field none ⟨[103], none⟩
+        [⟨⟨[120], none⟩, .string ⟨BlockString.joinLF exBlockLines, true, none⟩, none⟩] [] none none] none)) none] none,
+      none⟩], none⟩
+
+example : ∃ toks, lexAll (printDocument (mkCfg (.str [9])) exBlockDoc) = .ok toks ∧
+    parseDocument { noLocation := true } toks = .ok exBlockDoc := by
+  have hb : BlockLay [9] (BlockString.joinLF exBlockLines) :=
+    block_lay_multiline [9] _ _ (by decide)
+      (by intro x hx; simp at hx; rcases hx with rfl | rfl <;> (intro ch hc; simp at hc; omega))
+      (by decide) (by decide) (by decide) (by decide) (by decide)
+  refine print_parse_executable _ rfl _ (by intro ch hc; simp [mkCfg] at hc; omega) exBlockDoc ?_ (by decide) (by decide)
+  simp only [exBlockDoc, okExecDefinitions, okExecDefinition, okOperation, okVarDefs, okDirectives, okArguments, okArgument,
+    okSelectionSet, okSelections, okSelection, okOptSelectionSet, okValue, mkCfg]
+  repeat' apply And.intro
+  all_goals first | decide | (intro _; exact hb) | simp
 
 /-! ### R4: the refutation witness of `PrintParseStatement` (also the replay on the implementation) -/
 
